@@ -28,24 +28,124 @@ prop(
 
 prop(
     "C15",
+    ready=True,
     level="other",
-    explanation="(in progress)", bounds="", outside="", level_text="", level_note="", technique="", assumptions=[],
-    timeout={"quick": 600, "thorough": 1200},
+    explanation=(
+        "Differential check of the two real compatibility functions get_discovered_reader_incompatible_qos_policy_list "
+        "(writer side) and get_discovered_writer_incompatible_qos_policy_list (reader side), reached through the guarded "
+        "crate-visible wrappers, against a reference table written from DDS 1.4 2.2.3 / XTypes 1.3 7.6.3.1: Kani executes both "
+        "functions on the SAME symbolic (writer QoS, publisher QoS, reader QoS, subscriber QoS) and asserts (a) incompatible per "
+        "the table <=> non-empty list, the list names exactly the offending policy ids, no foreign id, no duplicate; (b) both "
+        "sides return the same verdict and the same id set. The nine request/offered policies are covered in four quick groups "
+        "that are symbolic together (durability+deadline+latency budget; liveliness kind+lease with presentation "
+        "scope/coherent/ordered; reliability+destination order+ownership; data representation lists with length pairs "
+        "(0,0),(1,0),(0,1),(1,2),(2,1) - the other four pairs of 0..2 x 0..2 in the thorough tier) and two thorough cross-group "
+        "obligations with four policies at once. Two genuine defects are kept as "
+        "known-finding harnesses restricted to their exact triggers (KF-C15-1 liveliness lease compared lexicographically, "
+        "KF-C15-2 presentation flags compared with !=); outside the triggers the liveliness/presentation verdicts are asserted, "
+        "and the agreement of the two sides is asserted everywhere."),
+    bounds="no bound on scalar domains: all kinds of every policy on both sides; deadline, latency budget, liveliness lease = Infinite or "
+           "Finite(any i32 sec, any nanosec < 10^9) on both sides; representation lists of length 0..2 with any u16 ids; at most 4 policies "
+           "symbolic in one obligation (the rest at their defaults); unwind 10 (result list of at most 9 ids)",
+    outside="topic-name / type-name equality, type assignability (DynamicType / TypeInformation comparison) and partition matching "
+            "(fnmatch_to_regex output is interpreted by the regex crate: loops over input, not encodable) - i.e. the 'if and only if' of the "
+            "property is decided for the RxO-QoS conjunct only; all nine policies symbolic at once (measured: > 16 GB in CBMC, every symbolic "
+            "policy adds a conditional Vec::push whose realloc path stays feasible) - the functions test each policy in an independent `if`, "
+            "groups of 3-4 are covered; the matched / incompatible-QoS status bookkeeping (C16/C33); durations with nanosec >= 10^9 "
+            "(unreachable through Duration::new)",
+    level_text="Bounded model checking (Kani/CBMC) of the real matching functions against a reference table; scalar domains are complete, "
+               "the bound is the grouping of policies and list length <= 2; level 'other'.",
+    level_note="trusted: Kani/CBMC, the 20-line reference table in c15_matching.rs (cites the DDS clauses). Two open known findings: "
+               "KF-C15-1 (liveliness lease, derived PartialOrd) and KF-C15-2 (presentation coherent/ordered compared with !=); their "
+               "trigger regions are excluded from the 'holds' obligations and kept as expected-to-fail harnesses.",
+    technique="Kani/CBMC symbolic execution of both real compatibility functions on one symbolic QoS quadruple, compared with a DDS-table oracle",
+    assumptions=["nanosec < 10^9 for finite durations (Duration::new normalizes)",
+                 "liveliness verdict compared with the table only outside trigger KF-C15-1, presentation verdict only outside KF-C15-2",
+                 "policies outside the symbolic group of an obligation are at their default values"],
+    timeout={"quick": 900, "thorough": 2400},
     mem_gb=8,
 )
 
 prop(
     "C37",
+    ready=True,
     level="other",
-    explanation="(in progress)", bounds="", outside="", level_text="", level_note="", technique="", assumptions=[],
-    timeout={"quick": 600, "thorough": 1200},
+    explanation=(
+        "(K) The real DataWriterQos / DataReaderQos / TopicQos::is_consistent are executed with every scalar policy symbolic and "
+        "compared with the DDS 1.4 2.2.3 consistency rules (max_samples >= max_samples_per_instance, KEEP_LAST depth <= "
+        "max_samples_per_instance, LENGTH_UNLIMITED above every limit, reader deadline >= time-based-filter minimum_separation, "
+        "a writer offers at most one data representation): Ok exactly for consistent values, otherwise Err(InconsistentPolicy); "
+        "totality (no panic) over the full i32 range of the limits. The real DataWriterQos / DataReaderQos / "
+        "SubscriberQos::check_immutability are executed on two arbitrary QoS values: ImmutablePolicy whenever a Changeable=NO "
+        "policy differs, Ok when only changeable policies differ. (A) On a real DcpsDomainParticipant (real constructor, real "
+        "create_topic / create_user_defined_publisher / create_user_defined_subscriber) one real set_topic_qos / set_subscriber_qos / "
+        "set_publisher_qos / set_default_topic_qos / create_topic with symbolic QoS and symbolic enabled flag: Ok exactly when the "
+        "reference model accepts; Err is InconsistentPolicy / ImmutablePolicy and the stored QoS is the previous one; Ok stores the "
+        "argument; get_topic_qos returns the stored QoS for any stored scalar policies. Two genuine defects are kept as known-finding "
+        "harnesses: KF-C37-1 (set_publisher_qos has no immutability check for PRESENTATION), KF-C37-2 (create_topic never checks "
+        "consistency of a specific QoS)."),
+    bounds="QoS scalars complete (all kinds, durations Infinite / Finite(any i32, nanosec < 10^9), history KEEP_ALL / KEEP_LAST(any u32), limits "
+           "Unlimited / Limited(any i32 >= 0) for the exact oracle and any i32 for totality); representation lists 0..2 in the kernels, empty in "
+           "the participant obligations; one participant with one topic / publisher / subscriber; one set/create operation per obligation "
+           "from the default previous QoS (two arbitrary QoS values in the check_immutability kernels); unwind 18",
+    outside="set_data_writer_qos / set_data_reader_qos (and writer/reader creation) on a participant: any access to the writer/reader entity "
+            "stored in the vector inside the heap-allocated publisher/subscriber entity exhausts 10 GB in CBMC even with concrete inputs "
+            "(measured; create_data_writer additionally recurses through TopicKind::from: > 800 s) - their ingredients is_consistent and "
+            "check_immutability are decided as kernels, the 6-line glue (order of the checks, assignment after them) is not executed; "
+            "get_publisher_qos / get_subscriber_qos with symbolic stored QoS (clone of partition Vec<String> out of the heap entity: > 8 GB) - "
+            "the setters are observed through the stored field; 'announced to remote participants' (XTypes serializer / DynamicData); "
+            "sequence-valued policies (user/topic/group data, partition names); meaning of negative Limited(n) limits (not defined by DDS; "
+            "dust-dds treats Limited(-1) as a huge bound in the depth rule but as -1 in the max_samples rule - observation, not asserted); "
+            "whether DATA_REPRESENTATION / TYPE_CONSISTENCY_ENFORCEMENT are immutable (XTypes says Changeable=NO, dust-dds accepts the "
+            "change on enabled readers/writers; the oracle leaves it free)",
+    level_text="Bounded model checking (Kani/CBMC): loop-free validation kernels over complete scalar domains plus one real operation on a "
+               "real participant aggregate; level 'other'.",
+    level_note="trusted: Kani/CBMC; reference model in support_qos.rs (DDS 2.2.3 rules, Changeable column); stubs TypeInformation::from and "
+               "alloc::fmt::format in the topic obligations (values not read by the QoS operations). Open known findings KF-C37-1, KF-C37-2. "
+               "The claim covers topics, publishers, subscribers and the validation kernels; writer/reader setters are outside (measured reason).",
+    technique="Kani/CBMC symbolic execution of the real QoS validation functions and of one real set_qos/create operation on a real participant",
+    assumptions=["Limited(n) resource limits have n >= 0 for the exact consistency oracle",
+                 "enabled flag (and previous presentation for publisher/subscriber) written directly into the entity before the operation",
+                 "stubs: TypeInformation::from(DynamicType) returns a fixed value; alloc::fmt::format returns an empty string (topic obligations)",
+                 "critical-section acquire/release are no-ops (sequential execution)"],
+    timeout={"quick": 900, "thorough": 2400},
     mem_gb=8,
 )
 
 prop(
     "C13",
+    ready=True,
     level="other",
-    explanation="(in progress)", bounds="", outside="", level_text="", level_note="", technique="", assumptions=[],
-    timeout={"quick": 600, "thorough": 1200},
+    explanation=(
+        "Reduced obligation: the FRAMING layer of the discovery parameter lists only. The real encoder "
+        "ParameterListSerializer::{write_header, write_cdr_parameter(pid, &[u8]), write_sentinel} - the call in which "
+        "write_xcdr1_parameter / write_xcdr2_parameter end - is executed with symbolic parameter ids and value bytes and its output is "
+        "compared byte for byte with RTPS 2.4 9.4.2.11 (header 00 03 00 00; id LE; length LE = value length rounded up to 4; value; zero "
+        "padding; sentinel 01 00 00 00) for every value length 0..8 and a list of three parameters; the produced bytes are then read by "
+        "the real decoder ParameterList::{new, get_optional_parameter, get_non_optional_parameter} (seek_to_pid / PidIterator) for ANY "
+        "looked-up id: the first parameter with that id is returned with exactly its bytes plus padding, parameters with other ids "
+        "(unknown, PID_PAD, vendor-specific) before and after it are skipped, an absent id yields the default / PidNotFound. A hand-built "
+        "big-endian list is decoded for every id other than the header alias. Known finding KF-C13-2 (the iterator parses the "
+        "encapsulation header as a parameter: big-endian lists lose PID_PARTICIPANT_LEASE_DURATION) is kept as an expected-to-fail "
+        "harness; KF-C13-1 (length field truncated by `as u16` above 65532 bytes) is reported by inspection only."),
+    bounds="value lengths 0..8 bytes (concrete per case), bytes symbolic; ids any i16 except 1 (sentinel); lists of 1 parameter (length 3) and 3 "
+           "parameters (lengths 0,3,8; thorough also 6,4,1 and the empty list) for the decoder; looked-up id any i16 except 1 and 0x0300; "
+           "unwind 5..11",
+    outside="ALL values: QoS, locators, type information, strings and octet sequences are serialized through DynamicData / the XTypes "
+            "serializer, which CBMC cannot execute (DESIGN.md section 2) - the property's 'decodes back to the data that was announced' is "
+            "NOT claimed, only that the framing layer carries raw value bytes unchanged; values longer than 8 bytes and in particular the "
+            "> 65535-byte case named by the property (CBMC crashes / exceeds 600 s on a 64 KiB buffer, measured); symbolic value lengths "
+            "(make every later write's realloc path feasible: 1.4 M steps, > 10 GB for two parameters); get_locator_list; looked-up id 0x0300 "
+            "(= the little-endian encapsulation header read as an id; no PID has that value)",
+    level_text="Bounded model checking (Kani/CBMC) of the real parameter-list encoder against the real decoder at framing level; "
+               "a deliberately reduced claim; level 'other'.",
+    level_note="trusted: Kani/CBMC and the RTPS 9.4.2.11 layout written in c13_framing.rs. This is the framing-only obligation announced in "
+               "DESIGN.md section 5; it does not establish the value round trip of C13. Open known finding KF-C13-2; KF-C13-1 reported "
+               "without a harness.",
+    technique="Kani/CBMC symbolic execution of the real ParameterListSerializer feeding the real ParameterList/PidIterator",
+    assumptions=["looked-up id != 0x0300 (little-endian header alias, not a PID)",
+                 "output buffer created with capacity 64 (no reallocation while writing; capacity is not observable by the serializer)",
+                 "value lengths are concrete per case (0..8)"],
+    timeout={"quick": 900, "thorough": 2400},
     mem_gb=8,
 )
